@@ -148,6 +148,18 @@ theorem dget_after_block (d : Dict) (x y : Nat) (k : String) :
     have h2 : k ≠ "exception" := fun e => hk (by simp [hidden, e])
     rw [if_neg hk, dget_dset_other _ _ _ _ h1, dget_dset_other _ _ _ _ h2, dget_popAll, if_neg hk]
 
+/-- the same when the exception view made the request create a `response` inside the block -/
+theorem dget_after_block_touch (d : Dict) (x y v : Nat) (k : String) :
+    dget (restore (popAll hidden d).2 (dset (dset (dset (popAll hidden d).1 "exception" x) "exc_info" y) "response" v)) k
+      = dget d k := by
+  rw [dget_restore_popAll hidden hidden_nodup]
+  by_cases hk : k ∈ hidden
+  · simp [hk]
+  · have h0 : k ≠ "response" := fun e => hk (by simp [hidden, e])
+    have h1 : k ≠ "exc_info" := fun e => hk (by simp [hidden, e])
+    have h2 : k ≠ "exception" := fun e => hk (by simp [hidden, e])
+    rw [if_neg hk, dget_dset_other _ _ _ _ h0, dget_dset_other _ _ _ _ h1, dget_dset_other _ _ _ _ h2, dget_popAll, if_neg hk]
+
 /-- inside the block, before the view runs: `exception` and `exc_info` are set, `response` is absent -/
 theorem dget_inside_block (d : Dict) (x y : Nat) :
     let d2 := dset (dset (popAll hidden d).1 "exception" x) "exc_info" y
